@@ -382,7 +382,14 @@ fn run_world(case: SearchCase) {
 pub fn step_cap(case: &SearchCase) -> u64 {
     // every node costs a handful of scheduling points (table read + write, yields of the
     // world); generous, the node cap is the real bound
-    40_000_000u64.min(case.node_cap.saturating_mul(12).max(2_000_000))
+    let cap = 40_000_000u64.min(case.node_cap.saturating_mul(12).max(2_000_000));
+    if case.prop == "C04" {
+        // Stops come early in these runs; a search that spins without searching nodes after
+        // the Stop (a hang) is recognised by the step cap, so keep it tight
+        cap.min(15_000_000)
+    } else {
+        cap
+    }
 }
 
 fn execute_once(case: &SearchCase, spec: &SchedSpec) -> (exec::ExecOut<()>, Vec<SearchRecord>) {
@@ -460,6 +467,9 @@ pub fn run(ctx: &Ctx, case: &SearchCase, spec: &SchedSpec) -> RunReport {
             }
         }
         stats.nodes += r.nodes;
+        if r.stop_before_done {
+            stats.post_cancel_max = stats.post_cancel_max.max(r.post_cancel_max);
+        }
         stats.probe_n("cancel-observed-mid-iteration", r.interrupts);
         if r.stop_before_done && r.interrupts == 0 && r.returned {
             stats.probe("stop-took-effect-between-iterations-or-too-late");
@@ -916,13 +926,48 @@ pub fn generate(ctx: &Ctx, prop: &str, rng: &mut Rng64, thorough: bool) -> Searc
                 (p, false)
             } else if kind < 40 {
                 (Pos::from_fen(rng.pick(corpus::LOCKED)).unwrap(), rng.chance(500))
+            } else if kind < 47 {
+                // sparse endgames searched without a depth limit: small trees whose stored
+                // best-move chains cycle, long distances to mate
+                let p = match rng.below(4) {
+                    0 => {
+                        let n = *rng.pick(&[13u32, 15, 17, 19, 21, 25]);
+                        corpus::tb_win_in(rng, &ctx.tb, n)
+                    }
+                    1 => {
+                        let mut p = corpus::random_tb_pos(rng);
+                        while p.legal_moves().is_empty() || !matches!(ctx.tb.probe(&p), Some(Val::Loss(n)) if n >= 10) {
+                            p = corpus::random_tb_pos(rng);
+                        }
+                        p
+                    }
+                    2 => Pos::from_fen(rng.pick(&["8/P6k/8/8/8/8/7K/8 w - - 0 1", "6k1/5ppp/8/8/8/8/5PPP/3R2K1 w - - 0 1", "8/5k2/8/8/8/8/1p4K1/8 b - - 0 1", "4k3/8/8/8/8/8/4P3/4K3 w - - 0 1", "8/8/4k3/8/8/4K3/4P3/8 w - - 0 1"])).unwrap(),
+                    _ => {
+                        let mut p = corpus::random_tb_pos(rng);
+                        while p.legal_moves().is_empty() || !matches!(ctx.tb.probe(&p), Some(Val::Win(n)) if n >= 11) {
+                            p = corpus::random_tb_pos(rng);
+                        }
+                        p
+                    }
+                };
+                (p, true)
             } else if kind < 70 {
                 (pick_position(ctx, rng), false)
             } else {
                 (Pos::from_fen(rng.pick(corpus::NORMAL)).unwrap(), true)
             };
+            let endgame_heavy = heavy && (40..47).contains(&kind);
             let depth = if heavy { None } else { Some(*rng.pick(&[1u32, 1, 2, 2, 3, 3, 4])) };
-            let workers = *rng.pick(&[1usize, 2, 4, 8]);
+            // a few runs place the Stop deep inside a large iteration (hundreds of thousands
+            // of nodes per worker), where only the periodic poll can honour it
+            let very_heavy = heavy && kind >= 70 && rng.chance(60);
+            let workers = if very_heavy {
+                *rng.pick(&[1usize, 2])
+            } else if endgame_heavy {
+                *rng.pick(&[2usize, 2, 4, 8])
+            } else {
+                *rng.pick(&[1usize, 2, 4, 8])
+            };
             let (entry, rt) = if rng.chance(500) { (Entry::Public, workers) } else { (Entry::Sync { workers: Some(workers) }, workers) };
             let mut faults = Vec::new();
             let times = *rng.pick(&[1u8, 1, 1, 2, 3]);
@@ -935,6 +980,13 @@ pub fn generate(ctx: &Ctx, prop: &str, rng: &mut Rng64, thorough: bool) -> Searc
                     3 => Fault { kind: FaultKind::StopAtIteration, at: rng.below(6), times },
                     4 => Fault { kind: FaultKind::StopAtStep, at: rng.below(20_000), times },
                     _ => Fault { kind: FaultKind::StopAtGlobalNode, at: 1 + rng.below(3_000), times },
+                };
+                let f = if very_heavy {
+                    Fault { kind: FaultKind::StopAtGlobalNode, at: 120_000 + rng.below(250_000), times: 1 }
+                } else if endgame_heavy && rng.chance(800) {
+                    Fault { kind: FaultKind::StopAtGlobalNode, at: 15_000 + rng.below(250_000), times }
+                } else {
+                    f
                 };
                 // a Stop keyed to a worker's own counter or to an iteration may never come due
                 // (small iterations); an unlimited search always also gets one that will
@@ -965,11 +1017,43 @@ pub fn generate(ctx: &Ctx, prop: &str, rng: &mut Rng64, thorough: bool) -> Searc
                     // delivered through probes (they hold their own clone)
                 }
             }
-            let first_fresh = rng.chance(700);
+            // The shipped table (1 GiB) never displaces anything within a session, a regime
+            // the small tables above cannot reproduce for long searches. A few runs therefore
+            // chain several long endgame searches on one *large* table with many workers.
+            if endgame_heavy && rng.chance(450) {
+                case.dims = (32, 8192);
+                case.node_cap = 4_000_000;
+                let w = *rng.pick(&[8usize, 16, 16]);
+                for _ in 0..3 {
+                    let mut q = corpus::random_tb_pos(rng);
+                    while q.legal_moves().is_empty() || !matches!(ctx.tb.probe(&q), Some(Val::Win(n)) if n >= 9) {
+                        q = corpus::random_tb_pos(rng);
+                    }
+                    case.searches.push(SearchSpec {
+                        fen: q.fen(),
+                        depth: None,
+                        seed: rng.next(),
+                        entry: Entry::Public,
+                        rayon_threads: w,
+                        fresh: false,
+                        history: vec![],
+                        faults: vec![Fault { kind: FaultKind::StopAtGlobalNode, at: 50_000 + rng.below(350_000), times: 1 }],
+                    });
+                }
+                return case;
+            }
+            let first_fresh = if endgame_heavy { rng.chance(400) } else { rng.chance(700) };
             if !first_fresh {
                 // inherited artifact: one small earlier search
-                let q = pick_position(ctx, rng);
-                case.searches.push(SearchSpec { fen: q.fen(), depth: Some(2), seed: rng.next(), entry: Entry::Sync { workers: Some(1) }, rayon_threads: 1, fresh: false, history: vec![], faults: vec![] });
+                let q = if endgame_heavy {
+                    // the same game: a position a move or two away (or the position itself)
+                    let k = rng.below(3) as u32;
+                    corpus::random_play(rng, &pos, k).0
+                } else {
+                    pick_position(ctx, rng)
+                };
+                let d0 = if endgame_heavy { 3 + rng.below(3) as u32 } else { 2 };
+                case.searches.push(SearchSpec { fen: q.fen(), depth: Some(d0), seed: rng.next(), entry: Entry::Sync { workers: Some(1) }, rayon_threads: 1, fresh: false, history: vec![], faults: vec![] });
             }
             case.searches.push(SearchSpec { fen: pos.fen(), depth, seed: rng.next(), entry, rayon_threads: rt, fresh: false, history: vec![], faults });
             // the returned artifact seeds one more search
